@@ -154,10 +154,14 @@ class DefaultHandler(BaseHandler):
             }
             msg_record.update(msg)
             try:
-                json.dump(msg_record, msg_file)
+                msg_line = json.dumps(msg_record)
             except Exception as e:
                 LOG.error(e)
                 LOG.info('raw message %s', msg)
+                # keep one complete JSON object per event: log the text form of what cannot be serialised
+                msg_record.update({key: repr(value) for key, value in msg.items()})
+                msg_line = json.dumps(msg_record)
+            msg_file.write(msg_line)
             msg_file.write('\n')
             self.msg_sequence[peer.lower()] += 1
             msg_file.flush()
